@@ -416,6 +416,31 @@ fn positional(p: &Params, di: usize, acc: &mut Acc) -> Option<String> {
             }
         }
     }
+    // internal iteration and the size hint agree with next()
+    let mut b = dirty[di].clone();
+    let folded: Vec<SliderEvent> = mk(p, &mut b).fold(Vec::new(), |mut v, e| {
+        v.push(e);
+        v
+    });
+    if bits(&folded) != bits(&all) {
+        return Some(format!("fold() visits {} events, next() yields {}", folded.len(), all.len()));
+    }
+    let mut b = dirty[di].clone();
+    let mut it = mk(p, &mut b);
+    let mut remaining = all.len();
+    loop {
+        let (lo, hi) = it.size_hint();
+        if lo > remaining || hi.is_some_and(|h| h < remaining) {
+            return Some(format!("size_hint() = ({lo}, {hi:?}) with {remaining} events left"));
+        }
+        if it.next().is_none() {
+            break;
+        }
+        remaining -= 1;
+    }
+    if it.next().is_some() {
+        return Some("next() yields an event after it returned None".into());
+    }
     let mut b = dirty[di].clone();
     if mk(p, &mut b).count() != all.len() {
         return Some("count() differs from the number of events next() yields".into());
